@@ -228,13 +228,21 @@ def r02_2(prog, rep):
                 repeated = True
         rep.check(repeated, "R02.2", home.qualname, home.loc, "references are evaluated until no reference is left", "the verbatim-bytes decision evaluates a reference once: a string naming a string-valued alias of a bytes type (codec('B4') with B4 = TypeAliasType('B4', 'B3'), B3 an alias of bytes) evaluates to a reference again, which is no bytes type -- the codec puts the JSON coders around the bytes routines and encode() raises 'Type is not JSON serializable: bytes', while codec(B4) and codec('B3') carry the bytes verbatim", detail="bytes-guard-reference-fixpoint")
     ref_tests = []
+    reaching: set = set()  # which kinds of reference reach an evaluation, over all paths
     for pth in ps:
         if any(T.contains(g, lambda y: T.is_call_to(y, "typelib.py.refs.evaluate")) for g, _ in pth.guards()):
+            kinds = {"builtins.str", "typing.ForwardRef"}
+            tested = False
             for g, pol in pth.guards():
-                if pol and T.is_call_to(g, "builtins.isinstance") and len(g[2]) == 2 and T.contains(g[2][0], lambda y: T.is_call_to(y, f"{C.INSP}.unwrap")):
-                    ref_tests.append({T.refname(x) for x in (P.flatten_display(prog, g[2][1]) or [g[2][1]])})
+                if T.is_call_to(g, "builtins.isinstance") and len(g[2]) == 2 and T.contains(g[2][0], lambda y: T.is_call_to(y, f"{C.INSP}.unwrap")) and not T.contains(g[2][0], lambda y: T.is_call_to(y, "typelib.py.refs.evaluate")):
+                    named = {T.refname(x) for x in (P.flatten_display(prog, g[2][1]) or [g[2][1]])}
+                    kinds = (kinds & named) if pol else (kinds - named)
+                    tested = tested or pol
+            if tested:
+                ref_tests.append(kinds)
+                reaching |= kinds
     if via_ref and ref_tests:
-        both = all({"builtins.str", "typing.ForwardRef"} <= n for n in ref_tests)
+        both = {"builtins.str", "typing.ForwardRef"} <= reaching
         rep.check(both, "R02.2", f.qualname, f.loc, "a reference is a str or a ForwardRef: both are evaluated", f"the reference test of the verbatim-bytes decision covers {sorted(set().union(*ref_tests))} only: the other way of naming bytes (a plain string / a ForwardRef object, which is what a string-valued alias unwraps to) still gets the JSON coders around the bytes routines", detail="bytes-guard-reference-kinds")
     del want_m
     cod = prog.cls("typelib.codecs.Codec")
